@@ -187,6 +187,7 @@ class C18(Property):
         other = rng.choice([secret + "x", secret[:-1], secret.upper(), "other-secret", "", prev + "y"])
         q = {"now": now, "auth": "bearer", "header": jd({"alg": alg, "typ": "JWT"}), "payload": jd(claims),
              "signkey": secret, "signalg": alg, "mut": [], "cls": "valid"}
+        raw = {}                       # time claims given as raw JSON number text
         cls = rng.choice([
             "valid", "valid", "valid", "prev", "prev", "wrong_secret", "empty_key", "expired", "exp_now", "exp_next",
             "exp_bad", "exp_zero", "nbf_future", "nbf_now", "iat_future", "iat_now", "iat_bad", "nbf_bad",
@@ -195,7 +196,11 @@ class C18(Property):
             "sigflip", "sigtrunc", "sigext", "sigempty", "siglast", "garbage", "seg2", "seg4", "bad_b64_header",
             "bad_json_header", "payload_array", "payload_null", "header_null", "bad_b64_payload", "bad_b64_sig",
             "rawtoken", "missing", "empty", "auth_lower", "auth_upper", "auth_noprefix", "auth_basic", "dup_claim",
-            "later", "earlier"])
+            "later", "earlier",
+            # round 3: order-revealing rejections, fractional / exponent time claims, odd Authorization headers
+            "expired_prev", "nbf_future_prev", "exp_float", "exp_float", "nbf_float", "iat_float", "time_exponent",
+            "time_negative", "huge_claim", "dup_auth_after", "dup_auth_before", "auth_twospace", "auth_trailspace",
+            "auth_leadspace", "auth_tab", "auth_mixed", "auth_beareronly", "auth_bearerbearer", "exp_numstring"])
         q["cls"] = cls
         m = q["mut"]
         if cls == "prev":
@@ -301,8 +306,40 @@ class C18(Property):
             q["auth"] = "missing"
         elif cls == "empty":
             q["auth"] = "empty"
-        elif cls in ("auth_lower", "auth_upper", "auth_noprefix", "auth_basic"):
+        elif cls in ("auth_lower", "auth_upper", "auth_noprefix", "auth_basic", "auth_twospace", "auth_trailspace",
+                     "auth_leadspace", "auth_tab", "auth_mixed", "auth_beareronly", "auth_bearerbearer"):
             q["auth"] = cls[5:]
+        elif cls == "expired_prev":
+            # validly signed with the previous secret but expired: the error ParseToken reports shows
+            # which secret was tried first
+            q["signkey"] = prev if prev else secret
+            claims["exp"] = now - rng.choice([0, 1, 3600])
+        elif cls == "nbf_future_prev":
+            q["signkey"] = prev if prev else secret
+            claims["nbf"] = now + rng.choice([1, 60])
+        elif cls == "exp_float":
+            # jwt compares whole seconds: floor(exp)
+            raw["exp"] = rng.choice(["%d.5" % now, "%d.5" % (now + 1), "%d.0" % (now + 1), "%d.0" % now,
+                                     "%d.999999" % now, "%d.000001" % (now + 1), "%d.5" % (now - 1)])
+        elif cls == "nbf_float":
+            raw["nbf"] = rng.choice(["%d.5" % now, "%d.0" % now, "%d.0" % (now + 1), "%d.5" % (now - 1), "%d.000001" % now])
+        elif cls == "iat_float":
+            raw["iat"] = rng.choice(["%d.5" % now, "%d.0" % now, "%d.0" % (now + 1), "%d.999" % (now - 1)])
+        elif cls == "time_exponent":
+            k = rng.choice(["exp", "nbf", "iat"])
+            raw[k] = rng.choice(["1e10", "1E3", "2.5e9", "1e0", "17e8", "0.0", "0e0", "1.7000000005e9"])
+        elif cls == "time_negative":
+            k = rng.choice(["exp", "nbf", "iat"])
+            raw[k] = rng.choice(["-1", "-0.5", "-1e3", "-0"])
+        elif cls == "exp_numstring":
+            claims["exp"] = str(now + 1000)
+        elif cls == "huge_claim":
+            claims["blob"] = "x" * rng.choice([5000, 20000])
+            claims["deep"] = {"a": {"b": {"c": [1, 2, {"d": None}]}}}
+        elif cls == "dup_auth_after":
+            q["auth2"] = "after"
+        elif cls == "dup_auth_before":
+            q["auth2"] = "before"
         elif cls == "dup_claim":
             q["payload"] = '{"exp":%d,"uid":1,"exp":%d,"uid":2}' % (now - 10, now + 100)
             claims = None
@@ -311,15 +348,51 @@ class C18(Property):
         elif cls == "earlier":
             q["now"] = now - rng.choice([1, 2, 60, 61, 3601])
         if claims is not None and cls != "dup_claim":
-            q["payload"] = jd(claims)
+            for k, txt in raw.items():
+                claims[k] = "@@RAW-%s@@" % k
+            pl = jd(claims)
+            for k, txt in raw.items():
+                pl = pl.replace('"@@RAW-%s@@"' % k, txt)
+            q["payload"] = pl
         return q
 
     def _jwt_case(self, rng):
         secret = rng.choice(["s1", "secret-key-0123456789", "k" * 40, "pässwörd"])
         prev = rng.choice(["", "", "s0", "previous-secret", secret, secret + "0"])
         now = rng.choice([1000, 1700000000, 1700000000 + rng.randrange(10 ** 6), 2 ** 31 + 5, 5])
-        return {"kind": "jwt", "secret": secret, "prev": prev,
-                "reqs": [self._jreq(rng, secret, prev, now) for _ in range(rng.randint(3, 8))]}
+        reqs = [self._jreq(rng, secret, prev, now) for _ in range(rng.randint(3, 8))]
+        # the SAME raw token again, on the same middleware instance: later (possibly after exp / before
+        # nbf), after other tokens were accepted or rejected in between
+        for _ in range(rng.choice([0, 1, 2, 3])):
+            src = dict(rng.choice(reqs))
+            src["now"] = src["now"] + rng.choice([0, 1, 2, 59, 60, 61, 3599, 3600, 3601, 10 ** 6, -1, -61])
+            src["cls"] = "replay"
+            reqs.insert(rng.randrange(len(reqs) + 1), src)
+        return {"kind": "jwt", "secret": secret, "prev": prev, "cb": rng.choice([0, 0, 1, 1, 2]), "reqs": reqs}
+
+    TP_SECRETS = ["s-alpha-000001", "s-beta-0000002", "s-gamma-000003"]
+
+    def _tp_case(self, rng):
+        """one token.TokenParser, every call with its own (secret, prevSecret); optionally with a reset
+        duration that is always over.  The error code of a rejected call shows the order of attempts."""
+        a, b, c3 = rng.sample(self.TP_SECRETS, 3)
+        now = rng.choice([1000, 1700000000])
+        calls = []
+        for _ in range(rng.randint(4, 12)):
+            r = rng.random()
+            sec, prev = (a, b) if r < 0.6 else (b, a) if r < 0.75 else (a, "") if r < 0.85 else (c3, a) if r < 0.95 else (a, a)
+            for _ in range(50):
+                q = self._jreq(rng, sec, prev, now)
+                if q["cls"] in ("valid", "prev", "expired", "exp_now", "expired_prev", "nbf_future_prev", "nbf_future",
+                                "iat_future", "wrong_secret", "sigflip", "alg_none", "alg_unknown", "missing", "seg2",
+                                "alg_asym", "payload_tamper", "exp_float", "later", "earlier"):
+                    break
+            if rng.random() < 0.35 and calls:
+                q = dict(rng.choice(calls)["req"])          # the same raw token under (possibly) other secrets
+                q["now"] = q["now"] + rng.choice([0, 0, 1, 3600, 10 ** 6])
+                q["cls"] = "replay"
+            calls.append({"secret": sec, "prev": prev, "req": q})
+        return {"kind": "tp", "reset": rng.random() < 0.35, "calls": calls}
 
     def _blob(self, rng):
         n = rng.choice([0, 1, 5, 15, 16, 17, 31, 32, 33, 48, rng.randint(0, 70)])
@@ -349,9 +422,11 @@ class C18(Property):
                "xuri_bad", "xuri_empty", "cipher_trunc", "cipher_lastbyte", "cipher_wrongkey", "cipher_dropblock",
                "bodyraw_nl", "bodyraw_notb64", "bodyraw_short", "chunked", "aeskey_bad", "limit_small", "nonstrict",
                "body_after", "fp_empty", "hdrfmt_nospace", "hdrfmt_spaces", "hdrfmt_trailing", "hdrfmt_junk",
-               "hdrfmt_dupsig_good_last", "hdrfmt_dupsig_bad_last", "hdrfmt_upper"]
+               "hdrfmt_dupsig_good_last", "hdrfmt_dupsig_bad_last", "hdrfmt_upper",
+               "clen_more", "clen_less", "flush", "gzenc", "secpad", "secpad_gz"]
     CRYPT_MUTS = ["none", "none", "none", "cipher_trunc", "cipher_lastbyte", "cipher_wrongkey", "cipher_dropblock",
-                  "bodyraw_nl", "bodyraw_notb64", "bodyraw_short", "chunked", "aeskey_bad", "limit_small", "plain_body"]
+                  "bodyraw_nl", "bodyraw_notb64", "bodyraw_short", "chunked", "aeskey_bad", "limit_small", "plain_body",
+                  "clen_more", "clen_less", "nobody_badkey", "flush", "chunked_empty"]
 
     def _apply(self, rng, c, mut):
         r = c["req"]
@@ -446,6 +521,23 @@ class C18(Property):
             c["strict"] = False
         elif mut == "plain_body":
             r["enc"] = False
+        elif mut == "clen_more":
+            r["clenadd"] = rng.choice([1, 2, 16, 1000])       # Content-Length announces more than is sent
+        elif mut == "clen_less":
+            r["clenadd"] = -rng.choice([1, 2, 4, 16])         # ... or less: exactly that many bytes are decrypted
+        elif mut == "nobody_badkey":
+            # no body, so nothing to decrypt, but the response cannot be encrypted under an unusable key
+            r["enc"], r["body"], r["aeskey"] = False, "", rng.choice(["short", "x" * 17, ""])
+            r["method"] = rng.choice(["GET", "DELETE"])
+        elif mut == "flush":
+            r["flush"] = True
+        elif mut == "gzenc":
+            r["gzenc"] = True
+        elif mut in ("secpad", "secpad_gz"):
+            r["secpad"] = rng.choice([30, 60, 117, 118, 200, 300])   # the secret spans several RSA blocks
+            r["gzenc"] = mut == "secpad_gz"
+        elif mut == "chunked_empty":
+            r["enc"], r["body"], r["chunked"] = False, "", True
 
     def _cs_case(self, rng, crypt):
         c = {"kind": "crypt" if crypt else "cs", "req": self._cs_req(rng, crypt)}
@@ -462,6 +554,7 @@ class C18(Property):
         for m in muts:
             self._apply(rng, c, m)
         c["muts"] = muts
+        c["wrap"] = rng.random() < 0.3
         if not crypt and rng.random() < 0.12:
             now = 1700000000
             sec = "chain-secret"
@@ -509,6 +602,7 @@ class C18(Property):
         if r.get("xuri") is not None and c.get("muts", [""])[0] == "xuri_same":
             r["xuri"] = full + ("?" + r["query"] if r["query"] else "")
         c["uacb"], c["uscb"] = rng.random() < 0.5, rng.random() < 0.5
+        c["usemw"] = rng.random() < 0.5
         now = 1700000000
         c["secret"], c["prev"] = "chain-secret", rng.choice(["", "chain-old-secret"])
         c["reqs"] = [self._jreq(rng, c["secret"], c["prev"], now)]
@@ -547,12 +641,16 @@ class C18(Property):
         cases = []
         for _ in range(n):
             r = rng.random()
-            if r < 0.30:
+            if r < 0.22:
                 cases.append(self._jwt_case(rng))
-            elif r < 0.55:
+            elif r < 0.30:
+                cases.append(self._tp_case(rng))
+            elif r < 0.50:
                 cases.append(self._cs_case(rng, False))
-            elif r < 0.80:
+            elif r < 0.65:
                 cases.append(self._eng_case(rng))
+            elif r < 0.82:
+                cases.append(self._srv_case(rng))
             elif r < 0.90:
                 cases.append(self._hdr_case(rng))
             else:
@@ -570,7 +668,9 @@ class C18(Property):
                 raise ExecError("c18 executor: case %s: %s" % (r.get("id"), r["err"]))
             if r.get("cs") and r["cs"].get("engerr"):
                 raise ExecError("c18 executor: engine did not bind the routes: %s" % r["cs"]["engerr"])
-            obs.append({"jwt": r.get("jwt"), "cs": r.get("cs"), "hdr": r.get("hdr")})
+            if r.get("srv") and r["srv"].get("engerr") and not self._srv_expect_fail(cases[len(obs)]):
+                raise ExecError("c18 executor: server did not bind the routes: %s" % r["srv"]["engerr"])
+            obs.append({"jwt": r.get("jwt"), "cs": r.get("cs"), "hdr": r.get("hdr"), "tp": r.get("tp"), "srv": r.get("srv")})
         return obs
 
     # ------------------------------------------------------------------ rendering
@@ -581,13 +681,29 @@ class C18(Property):
             return "VNull"
         return "VOther %d" % vals(s)
 
-    def _claims(self, d, keys, vals):
+    def _claims(self, d, keys, vals, timeval=None):
         items = []
         for k, v in d.items():
             kid = STD.get(k) or keys(k)
-            items.append((kid, "(%d, %s)" % (kid, self._cval(v, vals))))
+            if timeval and k in timeval:
+                # exp / iat / nbf given as a JSON number: the whole seconds the library compares with
+                # (floor, computed by the harness with strconv/math)
+                term = "VNum %s" % cz(int(timeval[k]))
+            else:
+                term = self._cval(v, vals)
+            items.append((kid, "(%d, %s)" % (kid, term)))
         items.sort()
         return clist([t for _, t in items])
+
+    def _cred(self, v, keys, vals, inputs, tags):
+        if v["cred"] == "missing":
+            return "CMissing"
+        if v["cred"] == "malformed":
+            return "CMalformed"
+        iid = inputs(v["input"])
+        sig = None if v["sig"] is None else tags("t:" + v["sig"])
+        return "(CToken (mkToken %s %d %s %s))" % (ALG[v["alg"]], iid, copt(sig),
+                                                   self._claims(v["claims"], keys, vals, v.get("timeval")))
 
     def _jwt_parts(self, secret, prev, reqs, jobs):
         """returns (jcfg term, mactab term, [(now, cred term)], [jobs term])"""
@@ -597,27 +713,40 @@ class C18(Property):
         tab, rq, ob = [], [], []
         for q, o in zip(reqs, jobs):
             v = o["view"]
-            if v["cred"] == "missing":
-                cred = "CMissing"
-            elif v["cred"] == "malformed":
-                cred = "CMalformed"
-            else:
-                iid = inputs(v["input"])
-                sig = None if v["sig"] is None else tags("t:" + v["sig"])
-                if v["alg"] in ALGID:
-                    a = ALGID[v["alg"]]
-                    ent = "((%d, 1, %d), %d)" % (a, iid, tags("t:" + v["tagcur"]))
+            cred = self._cred(v, keys, vals, inputs, tags)
+            if v["cred"] == "token" and v["alg"] in ALGID:
+                a, iid = ALGID[v["alg"]], inputs(v["input"])
+                ent = "((%d, 1, %d), %d)" % (a, iid, tags("t:" + v["tagcur"]))
+                if ent not in tab:
+                    tab.append(ent)
+                if prev_id == 2:
+                    ent = "((%d, 2, %d), %d)" % (a, iid, tags("t:" + v["tagprev"]))
                     if ent not in tab:
                         tab.append(ent)
-                    if prev_id == 2:
-                        ent = "((%d, 2, %d), %d)" % (a, iid, tags("t:" + v["tagprev"]))
+            rq.append("(%s, %s)" % (cz(q["now"]), cred))
+            ob.append("(mkJobs %s %s %s %s %s %s)" % (cbool(o["ran"]), cz(o["status"]), self._claims(o["ctx"], keys, vals),
+                                                     cbool(bool(o.get("panic"))), cz(o.get("uerr", -9)),
+                                                     cz(o.get("cbstatus", 0))))
+        return cfg, clist(tab), rq, ob
+
+    def _tp_term(self, case, obs):
+        keys, vals, inputs, tags, secs = Intern(10), Intern(1), Intern(1), Intern(1), Intern(1)
+        tab, calls, codes = [], [], []
+        for cl, o in zip(case["calls"], obs):
+            v = o["view"]
+            sid = secs(cl["secret"])
+            pid = None if cl["prev"] == "" else secs(cl["prev"])
+            cred = self._cred(v, keys, vals, inputs, tags)
+            if v["cred"] == "token" and v["alg"] in ALGID:
+                a, iid = ALGID[v["alg"]], inputs(v["input"])
+                for k, tg in ((sid, v["tagcur"]), (pid, v["tagprev"])):
+                    if k is not None:
+                        ent = "((%d, %d, %d), %d)" % (a, k, iid, tags("t:" + tg))
                         if ent not in tab:
                             tab.append(ent)
-                cred = "(CToken (mkToken %s %d %s %s))" % (ALG[v["alg"]], iid, copt(sig), self._claims(v["claims"], keys, vals))
-            rq.append("(%s, %s)" % (cz(q["now"]), cred))
-            ob.append("(mkJobs %s %s %s %s)" % (cbool(o["ran"]), cz(o["status"]), self._claims(o["ctx"], keys, vals),
-                                               cbool(bool(o.get("panic")))))
-        return cfg, clist(tab), rq, ob
+            calls.append("(mkJcfg %d %s, %s, %s)" % (sid, copt(pid), cz(cl["req"]["now"]), cred))
+            codes.append(cz(o["code"]))
+        return "CTp %s %s %s %s" % (cbool(case.get("reset")), clist(tab), clist(calls), clist(codes))
 
     def coq_case(self, case, obs):
         if case["kind"] == "jwt":
@@ -627,6 +756,12 @@ class C18(Property):
             h = obs["hdr"][0]
             pairs = clist(["(%s, %s)" % (hexbytes(k), hexbytes(v)) for k, v in sorted(h["attrs"].items())])
             return "CHdr %s %s" % (hexbytes(h["raw"]), pairs)
+        if case["kind"] == "tp":
+            return self._tp_term(case, obs["tp"])
+        if case["kind"] == "srv":
+            if any(r.get("unstable") for r in obs["srv"]["reqs"]):
+                return "CHdr [] []"          # the wall-clock second changed under a request: nothing is compared
+            return "CSrv (%s)" % self._srv_term(case, obs["srv"])
         return "CCs (%s)" % self._cs_term(case, obs["cs"])
 
     def _opts(self, case):
@@ -647,7 +782,7 @@ class C18(Property):
         pid, qid = ids("p:" + v["path"]), ids("q:" + v["query"])
         tsid, dig = ids("t:" + v["tsstr"]), ids("d:" + v["digest"])
         kid = keyid(v["key"])
-        fpid = {"A": 1, "B": 2}.get(q["fp"], 3)
+        fpid = {"A": 1, "B": 2}.get(q["fp"], 9)
         hdr = "(mkHdr %s %s %s)" % (copt(fpid if v["hasfp"] else None), copt(1 if v["hassecret"] else None),
                                     copt(tagid(v["sig"]) if v["hassig"] else None))
         xuri = "None"
@@ -660,11 +795,13 @@ class C18(Property):
                 tags.append(t)
         req = "(mkReq %s %d %d %s %s %s %s)" % (cz(mid), pid, qid, xuri, hdr, cz(v["contentlen"]), hexbytes(v["wire"]))
         rsa = "None"
-        if v["secok"]:
+        if v.get("deckeys"):
             rsa = "(Some (mkSecret %s %d %s %s))" % (copt(kid if v["keyok"] else None), tsid,
                                                      copt(None if v["tsval"] is None else cz(v["tsval"])),
                                                      copt(None if v["ctype"] is None else cz(v["ctype"])))
-        decs = clist([str({"A": 1, "B": 2}[k]) for k in case.get("keys", [])])
+        kfile = {"A": 1, "B": 2, "C": 3, "D": 4}
+        decs = clist(["(%d, %d)" % (kfile[k], kfile[k]) for k in case.get("keys", [])])
+        rsakeys = clist([str(kfile[k]) for k in v.get("deckeys", [])])
         jwt = "None"
         if has_jwt:
             cfg, tab, rq, _ = self._jwt_parts(case["secret"], case["prev"], case["reqs"][:1], [self._chain_view(case, o)])
@@ -673,19 +810,214 @@ class C18(Property):
 
         def tabterm(d):
             return clist(["(%s, %s)" % (hexbytes(k), hexbytes(x)) for k, x in sorted(d.items())])
-        honest = bool(q.get("enc")) and not q.get("cipherop") and q.get("bodyraw") is None
+        honest = bool(q.get("enc")) and not q.get("cipherop") and q.get("bodyraw") is None and not q.get("clenadd")
         raw_dec = res_term(o.get("rawdec"))
-        ob = "(mkCsObs %s %s %s %s %s %s %s %s %s %s %s)" % (
+        mwran = o.get("mwran") if case.get("usemw") else o["ran"]
+        ob = "(mkCsObs %s %s %s %s %s %s %s %s %s %s %s %s %s %s)" % (
             cbool(o["ran"]), cz(o["status"]), cz(o["code"]), hexbytes(o["seen"]),
             hexbytes(o["respraw"]), copt(None if o["respdec"] is None else hexbytes(o["respdec"])),
             copt(None if o.get("respplain") is None else hexbytes(o["respplain"])),
             cbool(bool(o.get("panic"))), res_term(o["codecenc"]) or "Err", res_term(o["codecdec"]) or "Err",
-            copt(raw_dec))
-        return "mkCs %s %s %s %s %s %s %s %s %s %s %s %d %s %s %d %s %s %s %s %s %s %s" % (
+            copt(raw_dec), cbool(bool(o.get("hdrout"))), cbool(o.get("codecx", "") == ""), cbool(bool(mwran)))
+        return "mkCs %s %s %s %s %s %s %s %s %s %s %s %d %s %s %s %d %s %s %s %s %s %s %s" % (
             cbool(crypt), cbool(has_sig), cbool(codeobs), jwt, cbool(bool(case.get("strict"))), decs, cz(case.get("tol", 0)), cz(v["now"]),
-            cz(case.get("limit") or MAXBYTES), req, strbytes(q["resp"]), 0, rsa, clist(tags), dig,
+            cz(case.get("limit") or MAXBYTES), req, strbytes(q["resp"]), 0, rsa, rsakeys, clist(tags), dig,
             cbool(v["aesok"]), tabterm(v["etab"]), tabterm(v["dtab"]),
             copt(None if v["b64"] is None else hexbytes(v["b64"])), strbytes(q["body"]), cbool(honest), ob)
+
+    KFILE = {"A": 1, "B": 2, "C": 3, "D": 4, "missing": 5, "badpem": 6, "badkey": 7}
+
+    def _srv_expect_fail(self, case):
+        """does the configuration make Start fail before every route is bound (by the generator's own reading)"""
+        if case.get("kind") != "srv":
+            return False
+        seen = set()
+        for g in case["sgroups"]:
+            sg = g.get("sig")
+            if sg is not None:
+                if not sg["keys"] and sg["strict"]:
+                    return True
+                if any(k["file"] not in ("A", "B", "C", "D") for k in sg["keys"]):
+                    return True
+            for m, pth in g["routes"]:
+                if (m, pth) in seen:
+                    return True
+                seen.add((m, pth))
+        return False
+
+    def _mid(self, ids, m):
+        return CHECKED.index(m) + 1 if m in CHECKED else 5 + ids("m:" + m)
+
+    def _srv_term(self, case, so):
+        ids, tg, kid, scid, fpid = Intern(1), Intern(1), Intern(1), Intern(1), Intern(1)
+        keys, vals, inputs, jt, secs = Intern(10), Intern(1), Intern(1), Intern(1), Intern(1)
+        groups = []
+        for g in case["sgroups"]:
+            j = "None"
+            if g.get("jwt"):
+                j = "(Some (mkJcfg %d %s))" % (secs(g["jwt"]["secret"]),
+                                              copt(None if g["jwt"]["prev"] == "" else secs(g["jwt"]["prev"])))
+            sg = "None"
+            if g.get("sig"):
+                sg = "(Some (mkSig %s %s %s))" % (cbool(g["sig"]["strict"]),
+                                                 clist(["(%d, %d)" % (fpid(k["fp"]), self.KFILE[k["file"]]) for k in g["sig"]["keys"]]),
+                                                 cz(g["sig"]["tol"]))
+            routes = clist(["(%s, %d)" % (cz(self._mid(ids, m)), ids("p:" + pth)) for m, pth in g["routes"]])
+            groups.append("(mkGroup %s %s %s)" % (j, sg, routes))
+        mac, rsa, cmac, sha, aes, et, dt, b64 = [], [], [], [], [], [], [], []
+
+        def add(lst, ent):
+            if ent not in lst:
+                lst.append(ent)
+        reqs = []
+        for sq, o in zip(case["sreqs"], so["reqs"]):
+            q, v = sq["cs"], o["view"]
+            mid, pid, qid = self._mid(ids, q["method"]), ids("p:" + v["path"]), ids("q:" + v["query"])
+            tsid, dig, k = ids("t:" + v["tsstr"]), ids("d:" + v["digest"]), kid(v["key"])
+            hdr = "(mkHdr %s %s %s)" % (copt(fpid(q["fp"]) if v["hasfp"] else None),
+                                        copt(scid(v["secretct"]) if v["hassecret"] else None),
+                                        copt(tg("c:" + v["sig"]) if v["hassig"] else None))
+            add(cmac, "((%d, (%d, %s, %d, %d, %d)), %d)" % (k, tsid, cz(mid), pid, qid, dig, tg("c:" + v["tagurl"])))
+            add(sha, "(%s, %d)" % (hexbytes(v["wire"]), dig))
+            sec = "(mkSecret %s %d %s %s)" % (copt(k if v["keyok"] else None), tsid,
+                                              copt(None if v["tsval"] is None else cz(v["tsval"])),
+                                              copt(None if v["ctype"] is None else cz(v["ctype"])))
+            if v["hassecret"]:
+                for name in v.get("deckeys", []):
+                    add(rsa, "((%d, %d), %s)" % (self.KFILE[name], scid(v["secretct"]), sec))
+            if v["aesok"]:
+                add(aes, str(k))
+            for blk, out in sorted(v["etab"].items()):
+                add(et, "((%d, %s), %s)" % (k, hexbytes(blk), hexbytes(out)))
+            for blk, out in sorted(v["dtab"].items()):
+                add(dt, "((%d, %s), %s)" % (k, hexbytes(blk), hexbytes(out)))
+            if v["b64"] is not None:
+                add(b64, "(%s, %s)" % (hexbytes(v["wire"]), hexbytes(v["b64"])))
+            jnow, cred = 0, "CMissing"
+            if sq.get("j") is not None:
+                jv = o["jwtview"]
+                jnow = sq["j"]["now"]
+                cred = self._cred(jv, keys, vals, inputs, jt)
+                if jv["cred"] == "token" and jv["alg"] in ALGID:
+                    for sname, tag in sorted(jv.get("tags", {}).items()):
+                        add(mac, "((%d, %d, %d), %d)" % (ALGID[jv["alg"]], secs(sname), inputs(jv["input"]), jt("t:" + tag)))
+            req = "(mkReq %s %d %d None %s %s %s)" % (cz(mid), pid, qid, hdr, cz(v["contentlen"]), hexbytes(v["wire"]))
+            sreq = "(mkSreq %s %s %s %s %s)" % (cz(jnow), cred, cz(v["now"]), req, strbytes(q["resp"]))
+            route = "None"
+            if o.get("ranroute"):
+                m, _, pth = o["ranroute"].partition(" ")
+                route = "(Some (%s, %d))" % (cz(self._mid(ids, m)), ids("p:" + pth))
+            mwran = o.get("mwran") if case.get("usemw") else o["ran"]
+            ob = "(mkSObs %s %s %s %s %s %s %s %s %s)" % (
+                cbool(o["ran"]), route, cz(o["status"]), hexbytes(o["seen"]), hexbytes(o["respraw"]),
+                copt(None if o.get("respdec") is None else hexbytes(o["respdec"])), cz(o["uerr"]), cbool(bool(mwran)),
+                cbool(bool(o.get("panic"))))
+            reqs.append("(%s, %d%%nat, %s)" % (sreq, sq["tgt"], ob))
+        tabs = "(mkTabs %s %s %s %s %s %s %s %s)" % (clist(mac), clist(rsa), clist(cmac), clist(sha), clist(aes),
+                                                    clist(et), clist(dt), clist(b64))
+        return "mkSrv %s %s %s %s %s %s" % (cz(MAXBYTES), clist(["1", "2", "3", "4"]), clist(groups), tabs,
+                                            cbool(so["bindok"]), clist(reqs))
+
+    SRV_SECRETS = ["secret-one-0001", "secret-two-0002", "secret-three-03"]
+    SRV_MUTS = ["none", "none", "none", "toff_edge", "toff_out", "tsraw", "smethod", "spath", "squery", "sbody", "stoff", "skey",
+                "rsa_garbage", "hdr_missing", "hdr_nosig", "hdr_nofp", "sig_flip", "sig_other", "ctype_other", "body_after",
+                "hdrfmt_dupsig_bad_last", "cipher_lastbyte", "fp_unknown"]
+    JWT_OK_CLS = ("valid", "auth_lower", "auth_upper", "auth_noprefix", "exp_next", "nbf_now", "iat_now", "siglast",
+                  "auth_mixed", "dup_auth_after")
+
+    def _srv_case(self, rng):
+        """ONE server, several route groups with DIFFERENT authentication configurations, a sequence of
+        requests each aimed at one group's route and carrying credentials made for any group"""
+        files, fps = ["A", "B", "C", "D"], ["fa", "fb", "fc"]
+        groups = []
+        for gi in range(rng.randint(2, 5)):
+            kind = rng.choice(["sig", "sig", "sig", "jwt", "jwt", "both", "both", "pub", "sig_ns"])
+            g = {"jwt": None, "sig": None, "routes": [], "opts": []}
+            if kind in ("jwt", "both"):
+                sec = rng.choice(self.SRV_SECRETS)
+                prev = rng.choice(["", "", rng.choice([x for x in self.SRV_SECRETS if x != sec]), "old-" + sec])
+                g["jwt"] = {"secret": sec, "prev": prev}
+            if kind in ("sig", "both", "sig_ns"):
+                ks = [{"fp": rng.choice(fps), "file": rng.choice(files)} for _ in range(rng.choice([1, 1, 1, 2, 2, 3]))]
+                g["sig"] = {"strict": kind != "sig_ns" and rng.random() < 0.92, "tol": rng.choice([0, 1, 5, 100, 3600]), "keys": ks}
+            m = rng.choice(CHECKED)
+            g["routes"] = [[m, "/g%d/one" % gi]]
+            if rng.random() < 0.5:
+                g["routes"].append([rng.choice(CHECKED), "/g%d/two" % gi])
+            if rng.random() < 0.2:
+                g["opts"] = rng.sample(["timeout", "maxbytes"], rng.randint(1, 2))
+            groups.append(g)
+        if not any(g["sig"] for g in groups):
+            groups[0]["sig"] = {"strict": True, "tol": 5, "keys": [{"fp": "fa", "file": "A"}]}
+        if rng.random() < 0.12:
+            # configurations that must stop the server from starting (what was bound before stays on the router)
+            gi = rng.randrange(len(groups))
+            g = groups[gi]
+            bad = rng.choice(["strict_nokeys", "nonstrict_nokeys", "missing", "badpem", "badkey", "duproute"])
+            if bad == "strict_nokeys":
+                g["sig"] = {"strict": True, "tol": 5, "keys": []}
+            elif bad == "nonstrict_nokeys":
+                g["sig"] = {"strict": False, "tol": 5, "keys": []}
+            elif bad == "duproute" and gi > 0:
+                g["routes"].append(list(groups[0]["routes"][0]))
+            elif bad in ("missing", "badpem", "badkey"):
+                ks = (g["sig"] or {"keys": []})["keys"] + [{"fp": "fz", "file": bad}]
+                rng.shuffle(ks)
+                g["sig"] = {"strict": True, "tol": 5, "keys": ks}
+        now = 1700000000
+        reqs = []
+        for _ in range(rng.randint(3, 8)):
+            ti = rng.randrange(len(groups))
+            tgt = groups[ti]
+            di = ti if rng.random() < 0.4 else rng.randrange(len(groups))
+            donor = groups[di]
+            m, pth = rng.choice(tgt["routes"])
+            # a route registered twice belongs to the group that registered it first (the second AddRoutes fails)
+            ti = min(i for i, g in enumerate(groups) if [m, pth] in g["routes"])
+            tgt = groups[ti]
+            r = self._cs_req(rng, False)
+            r.update({"method": m, "path": pth, "toff": 0, "enc": rng.random() < 0.3})
+            if m in ("GET", "DELETE") and rng.random() < 0.6:
+                r["body"], r["enc"] = "", False
+            tol = (tgt["sig"] or {"tol": 5})["tol"]
+            if donor["sig"] and donor["sig"]["keys"]:
+                k = rng.choice(donor["sig"]["keys"])
+                r["fp"], r["rsa"] = k["fp"], k["file"] if k["file"] in files else "A"
+                x = rng.random()
+                if x < 0.15 and tgt["sig"] and tgt["sig"]["keys"]:
+                    r["fp"] = rng.choice(tgt["sig"]["keys"])["fp"]        # the target's fingerprint, the donor's key
+                elif x < 0.25 and tgt["sig"] and tgt["sig"]["keys"]:
+                    kk = rng.choice(tgt["sig"]["keys"])
+                    r["rsa"] = kk["file"] if kk["file"] in files else "A"  # the donor's fingerprint, the target's key
+            else:
+                r["fp"], r["rsa"] = rng.choice(fps), rng.choice(files)
+                if rng.random() < 0.6:
+                    r["hdr"] = "missing"
+                    r["enc"] = False
+            if rng.random() < 0.3:
+                tmp = {"req": r, "tol": tol}
+                self._apply(rng, tmp, rng.choice(self.SRV_MUTS))
+            if rng.random() < 0.1:
+                r["gzenc"] = True
+            if rng.random() < 0.1:
+                r["secpad"] = rng.choice([40, 100, 200])
+            j = None
+            if donor["jwt"]:
+                sec, prev = donor["jwt"]["secret"], donor["jwt"]["prev"]
+                for _ in range(100):
+                    j = self._jreq(rng, sec, prev, now)
+                    if rng.random() < 0.35 or j["cls"] in self.JWT_OK_CLS + ("prev", "expired_prev"):
+                        break
+            elif rng.random() < 0.4:
+                j = self._jreq(rng, rng.choice(self.SRV_SECRETS), "", now)
+            if j is not None and reqs and rng.random() < 0.15:
+                prevj = [x["j"] for x in reqs if x["j"] is not None]
+                if prevj:
+                    j = dict(rng.choice(prevj))                            # the same raw token again, elsewhere / later
+                    j["now"] = j["now"] + rng.choice([0, 1, 3600, 10 ** 6])
+            reqs.append({"tgt": ti, "donor": di, "j": j, "cs": r})
+        return {"kind": "srv", "sgroups": groups, "sreqs": reqs, "uacb": rng.random() < 0.6, "uscb": rng.random() < 0.3,
+                "usemw": rng.random() < 0.5}
 
     def _chain_view(self, case, o):
         # the chained JWT token is classified by the executor in o["jwtview"]
@@ -704,26 +1036,37 @@ class C18(Property):
             return False
         if not (v["sig"] == v["tagcur"] or (prev != "" and v["sig"] == v["tagprev"])):
             return False
-        c = v["claims"]
+        c = dict(v["claims"])
+        c.update(v.get("timeval") or {})
         for k, f in (("exp", lambda e: now < e), ("iat", lambda e: e <= now), ("nbf", lambda e: e <= now)):
             if k in c and not (INT_RE.match(c[k]) and f(int(c[k]))):
                 return False
         return True
 
     def known(self, case, obs):
-        if case["kind"] in ("jwt", "hdr"):
+        """Only the three shapes described in KNOWN_FINDINGS.jsonl, each as narrow as its text:
+        F9     strict signature group, method outside the verified ones, handler ran unsigned, and NOTHING else is
+               wrong (JWT valid where required, body handed over and response sent as they are);
+        XURI   strict, verified method, X-Request-Uri parses to a path/query other than the URL's, and the request
+               IS correctly signed (fingerprint, secret, window, MAC) for the header's path/query;
+        CHUNK  (only while the tree lacks the unknown-length repair) honest encrypted request, ContentLength exactly
+               -1, non-empty body, the gate otherwise satisfied, handler saw exactly the wire bytes and the response
+               is what the model says (encrypted by the stand-alone handler, plain behind content security)."""
+        if case["kind"] in ("jwt", "hdr", "tp", "srv"):
             return None
         o = obs["cs"]
         v, q = o["view"], case["req"]
-        if o.get("panic"):
+        if o.get("panic") or o.get("codecx") or not o.get("hdrout", True) and o["ran"]:
             return None
         has_jwt, has_sig, crypt = self._opts(case)
         jwt_ok = True
         if has_jwt:
             jwt_ok = self._jwt_valid(o["jwtview"], case["prev"], case["reqs"][0]["now"])
+        if case.get("usemw") and bool(o.get("mwran")) != bool(o["ran"]):
+            return None
         signed = has_sig and self._signed_spec(case, v)
         gate_fail = o["ran"] and ((has_sig and case.get("strict") and not signed) or not jwt_ok)
-        honest = bool(q.get("enc")) and not q.get("cipherop") and q.get("bodyraw") is None
+        honest = bool(q.get("enc")) and not q.get("cipherop") and q.get("bodyraw") is None and not q.get("clenadd")
         lim = case.get("limit") or MAXBYTES
         xsame = v["xpath"] is None or (v["xpath"], v["xquery"]) == (v["path"], v["query"])
         must = honest and v["aesok"] and jwt_ok and v["contentlen"] <= lim and xsame and (crypt or (signed and v["ctype"] == 1 and q["method"] in CHECKED))
@@ -735,14 +1078,19 @@ class C18(Property):
         if codec_fail:
             return None
         if gate_fail and not dec_fail and jwt_ok:
-            if q["method"] not in CHECKED:
+            if (q["method"] not in CHECKED and has_sig and case.get("strict")
+                    and o["status"] == 200 and o["seen"] == v["wire"] and o["respraw"] == resp_hex):
                 return F9
-            if (v["xpath"] is not None and (v["xpath"], v["xquery"]) != (v["path"], v["query"])
-                    and self._signed_spec(case, v, use_xuri=True)):
+            if (q["method"] in CHECKED and case.get("strict") and v["xpath"] is not None
+                    and (v["xpath"], v["xquery"]) != (v["path"], v["query"])
+                    and self._signed_spec(case, v, use_xuri=True) and o["status"] == 200):
                 return XURI
             return None
-        if dec_fail and not gate_fail:
-            if q.get("chunked") and v["contentlen"] == -1 and o["ran"] and o["seen"] == v["wire"]:
+        if dec_fail and not gate_fail and not _C.get("unknown_length_fix"):
+            if (q.get("chunked") and v["contentlen"] == -1 and v["wire"] != "" and o["ran"] and o["status"] == 200
+                    and o["seen"] == v["wire"]
+                    and ((crypt and ((q["resp"] == "" and o["respraw"] == "") or o.get("respplain") == resp_hex))
+                         or (not crypt and o["respraw"] == resp_hex))):
                 return CHUNK
         return None
 
@@ -753,6 +1101,12 @@ class C18(Property):
             return any(o["ran"] for o in toks) and any(not o["ran"] for o in toks)
         if case["kind"] == "hdr":
             return len(obs["hdr"][0]["attrs"]) > 0
+        if case["kind"] == "tp":
+            return any(o["code"] == 0 for o in obs["tp"]) and any(o["code"] > 0 for o in obs["tp"])
+        if case["kind"] == "srv":
+            rs = obs["srv"]["reqs"]
+            return (sum(1 for g in case["sgroups"] if g.get("sig") or g.get("jwt")) >= 2
+                    and any(o["ran"] for o in rs) and any(not o["ran"] for o in rs))
         v = obs["cs"]["view"]
         if case["kind"] == "crypt":
             return v["b64"] is not None
@@ -768,6 +1122,25 @@ class C18(Property):
                 fs.append("jwt:%s:%s" % (q.get("cls", "corpus"), "ran" if o["ran"] else str(o["status"])))
         elif case["kind"] == "hdr":
             fs.append("hdr:attrs=%d" % len(obs["hdr"][0]["attrs"]))
+        elif case["kind"] == "tp":
+            fs.append("tp:reset" if case.get("reset") else "tp:noreset")
+            for cl, o in zip(case["calls"], obs["tp"]):
+                fs.append("tp:%s:%d" % (cl["req"].get("cls", "?"), o["code"]))
+        elif case["kind"] == "srv":
+            so = obs["srv"]
+            fs.append("srv:groups=%d" % len(case["sgroups"]))
+            fs.append("srv:bindok" if so["bindok"] else "srv:bindfail")
+            if any(r.get("unstable") for r in so["reqs"]):
+                fs.append("srv:unstable-second-skipped")
+            for sq, o in zip(case["sreqs"], so["reqs"]):
+                tg, dn = case["sgroups"][sq["tgt"]], case["sgroups"][sq["donor"]]
+
+                def kd(g):
+                    return ("jwt" if g.get("jwt") else "") + ("sig" if g.get("sig") else "") or "pub"
+                fs.append("srv:%s<-%s:%s:%s" % (kd(tg), kd(dn), "own" if sq["tgt"] == sq["donor"] else "other",
+                                                "ran" if o["ran"] else str(o["status"])))
+                if o["uerr"] not in (-9, 0):
+                    fs.append("srv:uerr=%d" % o["uerr"])
         else:
             o = obs["cs"]
             if case["kind"] == "eng":
@@ -778,6 +1151,10 @@ class C18(Property):
                 fs.append("%s:%s:%s" % (case["kind"], m, "ran" if o["ran"] else str(o["status"])))
             if case.get("withjwt"):
                 fs.append("chain")
+            if case.get("wrap") and case["kind"] in ("cs", "crypt") and not case.get("limit"):
+                fs.append("wrapper:" + case["kind"])
+            if case.get("usemw") and case["kind"] == "eng":
+                fs.append("usemw:" + ("ran" if o.get("mwran") else "not"))
             if case["kind"] in ("cs", "eng"):
                 fs.append("strict" if case.get("strict") else "nonstrict")
                 fs.append("code=%s" % o["code"])
@@ -796,6 +1173,32 @@ class C18(Property):
                 if len(rs) > 1:
                     c = dict(case)
                     c["reqs"] = rs[:i] + rs[i + 1:]
+                    res.append(c)
+            return res
+        if case["kind"] == "tp":
+            rs = case["calls"]
+            for i in range(len(rs)):
+                if len(rs) > 1:
+                    c = dict(case)
+                    c["calls"] = rs[:i] + rs[i + 1:]
+                    res.append(c)
+            return res
+        if case["kind"] == "srv":
+            rs = case["sreqs"]
+            for i in range(len(rs)):
+                if len(rs) > 1:
+                    c = dict(case)
+                    c["sreqs"] = rs[:i] + rs[i + 1:]
+                    res.append(c)
+            used = {q["tgt"] for q in rs} | {q["donor"] for q in rs}
+            for gi in range(len(case["sgroups"])):
+                if gi not in {q["tgt"] for q in rs} and len(case["sgroups"]) > 1:
+                    # drop a group no request is aimed at (it may still matter: shared state between groups)
+                    c = json.loads(json.dumps(case))
+                    del c["sgroups"][gi]
+                    for q in c["sreqs"]:
+                        q["tgt"] -= 1 if q["tgt"] > gi else 0
+                        q["donor"] = 0 if q["donor"] == gi else q["donor"] - (1 if q["donor"] > gi else 0)
                     res.append(c)
             return res
         for k in ("xuri", "smethod", "spath", "squery", "sbody", "stoff", "skey", "bodyraw", "cipherop", "sigmut",
@@ -822,6 +1225,12 @@ class C18(Property):
         if case["kind"] == "eng":
             return ("a route registered on a rest.Server with WithJwt/WithJwtTransition/WithSignature ran its handler without "
                     "the credential its options require (or an encrypted body/response did not round-trip)")
+        if case["kind"] == "srv":
+            return ("on a rest.Server with several route groups, a route's handler (or a server.Use middleware) ran for a "
+                    "request whose credentials are not valid for the configuration of the group the route was registered in "
+                    "(JWT secret / previous secret, signature keys, strictness, tolerance), or another route's handler ran")
+        if case["kind"] == "tp":
+            return "token.TokenParser.ParseToken returned a token that is not valid under the secrets of that call"
         if case["kind"] == "jwt":
             return ("the JWT gate called the handler for a token that is not validly signed/currently valid, did not answer "
                     "401 on rejection, or delivered other context claims than the token's non-registered ones")
